@@ -107,6 +107,16 @@ def apply_op(world, op, ctx=None):
         else:
             f = lambda: OSError(101, 'Network is unreachable')
         n.sendto_fail[n.sendto_no + op.get('nth', 1)] = f
+    elif kind == 'recvfail':
+        n = w.nodes[op['node']]
+        if n.state != 'running':
+            return
+        if op.get('sock', 'udp') == 'nl':
+            n.recv_fail['nl'].append(lambda: OSError(105, 'No buffer space available'))
+        else:
+            exc = op.get('exc', 'refused')
+            n.recv_fail['udp'].append((lambda: ConnectionRefusedError(111, 'Connection refused')) if exc == 'refused' else
+                                      (lambda: OSError(113, 'No route to host')))
     elif kind == 'kraw':
         n = w.nodes[op['node']]
         n.kernel.raw_event(bytes.fromhex(op['hex']), op.get('what', 'raw'))
